@@ -21,6 +21,10 @@ type IncOpts struct {
 	Strategy  simrt.Strategy
 	StepCap   int
 	Snapshots bool // clone the fs after every journal entry (crash-state enumeration)
+	// SnapOne != 0: keep ONE crash state, chosen uniformly among all journal
+	// entries by reservoir sampling from a private PRNG seeded with this value
+	// (one tape draw decides; memory stays linear for long runs)
+	SnapOne uint64
 	Fault     *FaultSpec
 	Fault2    *FaultSpec // a second, independent failure in the same run
 	NoDur     bool
@@ -128,6 +132,24 @@ func RunInc(w *WF, t *simrt.Tape, root *simrt.Inode, nextIno int, o IncOpts) *In
 				running = append(running, r.Key)
 			}
 			inc.Snaps = append(inc.Snaps, Snap{JSeq: e.Seq, Step: s.Steps, Root: s.FS.Snapshot(), NextIno: s.FS.NextIno, Entry: e, Running: running})
+		}
+	}
+	if o.SnapOne != 0 && !o.Snapshots {
+		x := o.SnapOne*0x9e3779b97f4a7c15 + 0x94d049bb133111eb
+		k := uint64(0)
+		s.FS.OnMutate = func(e simrt.JEntry) {
+			k++
+			x ^= x << 13
+			x ^= x >> 7
+			x ^= x << 17
+			if x%k != 0 {
+				return
+			}
+			var running []string
+			for _, r := range s.Shell.Running() {
+				running = append(running, r.Key)
+			}
+			inc.Snaps = []Snap{{JSeq: e.Seq, Step: s.Steps, Root: s.FS.Snapshot(), NextIno: s.FS.NextIno, Entry: e, Running: running}}
 		}
 	}
 	if o.OnStep != nil {
